@@ -160,10 +160,13 @@ def m2(ctx, fx, I, C):
     ctx.stats["flag_guarded_functions"] = sorted(guarded_fns)
 
 
-def m3(ctx, fx, I, D, C):
+def m3(ctx, fx, I, D0, C):
     """taint from ToString::to_string(value) to pattern-based rewrites, interprocedural one level through crate-local callees"""
+    hosts = [f for n, f in sorted(fx.fns.items()) if n.startswith("disclosure::") and not f.is_macro_generated() and f.kind != "closure"
+             and any(t.get("name") == "to_string" and (t.get("self_ty") or "") in ("V", "T", "serde_json::Value") for _, t in f.calls())]
+    D = hosts[0] if hosts else D0
     dv = vals(D)
-    vparams = [i for i in range(1, D.arg_count + 1) if D.local_user(i) == "value"] or [D.arg_count]
+    vparams = [i for i in range(1, D.arg_count + 1) if (D.local_ty(i) or "").lstrip("&") in ("V", "T", "serde_json::Value")] or [D.arg_count]
     def is_source(x):
         return x.kind == "call" and x.d["term"].get("name") == "to_string" and x.kids and peel(x.kids[0]).kind == "param" and peel(x.kids[0]).d["idx"] in vparams and x.fn is D
     stop = lambda x: x.kind == "call" and x.d["term"].get("name") in ("next", "next_back", "nth") and "std::str::Chars" in (x.d["term"].get("self_ty") or "")
